@@ -158,7 +158,8 @@ Fixpoint has_at (t : tree) (body : list string) (att : string) : res bool :=
   | [] => Ok (has_tail t att)
   | p :: body' => match step t p with
                   | SFound _ c => has_at c body' att
-                  | SNone => Ok false           (* hasattr(None, att) *)
+                  | SNone => Ok false           (* the walk ended on None: the path does not exist (repaired C08-has-none:
+                                                   has() no longer asks hasattr(None, att), which is True for __class__ ...) *)
                   | SKeyError => Raise KeyError
                   end
   end.
@@ -725,6 +726,32 @@ Definition spec_step_ok (t : tree) (key : string) : bool :=
       else true
   else false.
 
+(* -- which models run: ModelGroup.__iter__ yields (and ModelGroup.run executes) a model iff a test on its `enabled`
+      flag holds; validate_steps decides with a test on the same flag whether the swept model is enabled.  The flag is
+      an ordinary setting: it can hold whatever a configuration, a constructor, Processor.set or an override text
+      ('1' -> int 1) put there, so the two tests must agree on EVERY value, not only on True / False. -- *)
+Inductive flagtest :=
+| FTruthy        (* `if model.enabled:` / `if not processor.get(...)`: Python truthiness *)
+| FIsTrue        (* `model.enabled is True`: the bool True only *)
+| FEqTrue.       (* `model.enabled == True`: True, 1, 1.0 *)
+
+Definition flag_holds (ft : flagtest) (v : pyval) : bool :=
+  match ft with
+  | FTruthy => truthy v
+  | FIsTrue => match v with VBool true => true | _ => false end
+  | FEqTrue => match num_of v with Some (m, e) => dec_eqb m e 1 0 | None => false end
+  end.
+
+Definition flagtest_eqb (a b : flagtest) : bool :=
+  match a, b with FTruthy, FTruthy | FIsTrue, FIsTrue | FEqTrue, FEqTrue => true | _, _ => false end.
+
+(* a private name (outside the public key space): it starts with an underscore *)
+Definition private_name (s : string) : bool := match s with String c _ => aeq c (ch "_") | EmptyString => false end.
+
+(* the model a pipeline key addresses (pipeline.<group>.<model>....) is executed when the pipeline runs *)
+Definition executes (ft : flagtest) (t : tree) (k : list string) : bool :=
+  match getv t (model_flag_key k) with Ok v => flag_holds ft v | Raise _ => false end.
+
 (* ------------------------------------------------------------------------------------ correspondence *)
 
 Definition fentry := (list string * nat * pyval)%type.
@@ -919,7 +946,11 @@ Record rcase := { r_atoms : list atom; r_shape : nat; r_obs : res pyval }.
 
 (* validate_steps cases *)
 Record vcase := { v_tree : tree; v_keys : list string; v_obs : option exn;
-                  v_ran : option (option exn * nat) }.   (* the sweep itself, if it was run: outcome, models executed *)
+                  v_ran : option (option exn * nat);    (* the sweep itself, if it was run: outcome, models executed *)
+                  v_vals : list (list pyval);           (* per step: the swept values *)
+                  v_seen : list (nat * list pyval) }.   (* per step, if the sweep was run: how often the model the key
+                                                           addresses was executed, and the values that arrived in the
+                                                           argument the key addresses *)
 Definition v_mismatches (cs : list vcase) : list Z :=
   indices_where (fun c => negb (opt_exn_eqb (validate_steps (v_tree c) (v_keys c)) (v_obs c))) cs 0%Z.
 (* spec: an error iff some key is undeclared / belongs to a disabled model *)
@@ -936,8 +967,63 @@ Definition v_viol_ran (c : vcase) : bool :=
       if forallb (spec_step_ok (v_tree c)) (v_keys c) then false
       else match r with None => true | Some _ => negb (Nat.eqb calls 0) end
   end.
+(* "... rather than a silent no-op": a sweep that is accepted and completes has an effect — every swept value of a
+   model argument arrives in (at least) one execution of that model, and a swept `enabled` flag switches the model on
+   exactly in the runs whose value is truthy.  Judged on what a recording probe model saw.
+   1 = argument key (pipeline.<g>.<m>.arguments.<a>[.<item>]), 2 = enabled flag (pipeline.<g>.<m>.enabled) *)
+Definition sweep_key_class (k : list string) : nat :=
+  match k with
+  | p :: _ :: _ :: a :: _ :: _ => if String.eqb p "pipeline" && String.eqb a "arguments" then 1 else 0
+  | [p; _; _; e] => if String.eqb p "pipeline" && String.eqb e "enabled" then 2 else 0
+  | _ => 0
+  end%nat.
+
+Definition related (a b : list string) : bool := is_prefix a b || is_prefix b a.
+
+Fixpoint count_truthy (l : list pyval) : nat :=
+  match l with
+  | [] => O
+  | v :: r => match convert_value v with
+              | Ok v' => if truthy v' then S (count_truthy r) else count_truthy r
+              | Raise _ => count_truthy r
+              end
+  end.
+
+Definition arrived (seen : list pyval) (v : pyval) : bool :=
+  match convert_value v with Ok v' => existsb (pyval_eqb v') seen | Raise _ => true end.
+
+(* the step at position i (key k, values vals, observation (calls, seen)) had no effect; others = the other keys *)
+Definition noop_step (k : list string) (others : list (list string)) (vals : list pyval) (calls : nat) (seen : list pyval) : bool :=
+  if existsb (related k) others then false       (* two steps on one setting: the later one wins, not judged *)
+  else match sweep_key_class k with
+       | 1%nat =>
+           if existsb (fun k' => Nat.eqb (sweep_key_class k') 2 && key_eqb (firstn 3 k') (firstn 3 k)) others then false
+           else negb (forallb (arrived seen) vals)
+       | 2%nat =>
+           match others with
+           | [] => negb (Nat.eqb calls (count_truthy vals))         (* one run per value, one readout time per run *)
+           | _ => Nat.ltb 0 (count_truthy vals) && Nat.eqb calls 0
+           end
+       | _ => false
+       end.
+
+Fixpoint noop_any (pre post : list (list string)) (vals : list (list pyval)) (seen : list (nat * list pyval)) : bool :=
+  match post, vals, seen with
+  | k :: post', vs :: vals', (calls, sn) :: seen' =>
+      if noop_step k (rev pre ++ post')%list vs calls sn then true else noop_any (k :: pre) post' vals' seen'
+  | _, _, _ => false
+  end.
+
+Definition v_viol_noop (c : vcase) : bool :=
+  match v_ran c with
+  | Some (None, _) =>
+      if forallb (spec_step_ok (v_tree c)) (v_keys c) then noop_any [] (map split_dots (v_keys c)) (v_vals c) (v_seen c)
+      else false
+  | _ => false
+  end.
+
 Definition v_violations (n : nat) (cs : list vcase) : list Z :=
-  indices_where (match n with 1%nat => v_viol_silent | 2%nat => v_viol_refused | _ => v_viol_ran end) cs 0%Z.
+  indices_where (match n with 1%nat => v_viol_silent | 2%nat => v_viol_refused | 3%nat => v_viol_ran | _ => v_viol_noop end) cs 0%Z.
 
 (* literal values whose rendering is the text a user writes for them (scalar subset) *)
 Inductive lit := LInt (z : Z) | LDec (m e : Z) | LBool (b : bool) | LNone | LWord (s : string).
